@@ -18,8 +18,9 @@ def oracle_many(cases, timeout=600):
     return res
 
 
-KNOWN_CLASSES = {"c01": ["kfa", "kfb", "kfc", "kfd", "kfe"], "c04": ["kfa"], "c06": ["kfa"], "c07": [], "c08": ["kfb", "kfc", "kfd", "kfe"],
-                 "c09": ["kfa"], "c10w": [], "c10": ["f4"], "c11": [], "c19": [], "c05": []}
+KNOWN_CLASSES = {"c01": ["kfa", "kfb", "kfc", "kfd", "kfe", "kff", "kfg"], "c04": ["kfa", "kfg"], "c06": ["kfa", "kfg"], "c07": [],
+                 "c08": ["kfb", "kfc", "kfd", "kfe", "kff", "kfg"],
+                 "c09": ["kfa", "kfg"], "c10w": ["kfg"], "c10": ["f4", "kfg"], "c11": [], "c19": [], "c05": []}
 
 
 def in_known_class(d, key):
